@@ -42,6 +42,8 @@ def case_task(task):
         part.count("evaluations")
         if G > 256:
             part.count("fine_grid_cases")
+        if c.get("many_clones"):
+            part.count("cases_with_more_than_256_clones")
         part.see("%s|G%d|D%d|%s|%s" % (c["mode"], G, D, kind, gen.key_str(f.key())))
         if sorted(map(str, ccfs.keys())) != sorted(str(names[i]) for i in range(f.K)):
             part.violation("reported CCFs do not cover exactly the clones of the tree", dict(case, keys=sorted(map(str, ccfs))))
@@ -110,7 +112,7 @@ def run(ctx):
     quick = ctx.tier == "quick"
     ctx.rule = ("(a) every forest shape on <=4 clones x G in {2,3,4,5,6} x D in {1,2} against a brute-force maximum; (b) "
                 "random forests to 10 clones, up to 8 children, G in {11,21,101}, D 1-3, data moderate / smooth / flat "
-                "(all ties) / peaked, and trees to 5 clones on fine grids 257..1001, against an independent max-plus recursion; ties accepted (only the value is compared); "
+                "(all ties) / peaked, trees to 5 clones on fine grids 257..1001 and trees of 258-330 clones, against an independent max-plus recursion; ties accepted (only the value is compared); "
                 "distinct = (mode, grid, samples, data kind, canonical forest)")
     ctx.assumptions = ["the two reference maximisers cross-check each other on the brute-force cases"]
     rng = np.random.default_rng([ctx.seed, 1010])
@@ -142,6 +144,14 @@ def run(ctx):
         f = gen.random_forest(rng, n, max_children=4, shape=["chain", None, "star", "bushy"][i % 4], n_tops=[1, None, 2][i % 3])
         big.append({"id": cid, "mode": "recursive", "forest": f.describe(), "G": [257, 301, 513, 600, 258, 1001, 401, 777][i % 8],
                     "D": 1 + i % 2, "kind": ["smooth", "peaked", "binom", "moderate"][i % 4]})
+        cid += 1
+    # trees with more than 256 clones (sizes beyond one byte)
+    for i in range(4 if quick else 60):
+        n = int(rng.integers(280, 330))
+        f = gen.random_forest(rng, n, max_children=[8, 300, 2][i % 3], shape=[None, "star", "bushy", "chain"][i % 4],
+                              n_tops=[1, 3, 30][i % 3], min_clones=258)
+        big.append({"id": cid, "mode": "recursive", "forest": f.describe(), "G": [11, 5, 21][i % 3], "D": 1 + i % 2,
+                    "kind": ["smooth", "moderate", "binom", "flat"][i % 4], "many_clones": True})
         cid += 1
     tasks = [{"seed": ctx.seed, "cases": [b]} for b in big]
     tasks += [{"seed": ctx.seed, "cases": cases[i::48]} for i in range(48)]
